@@ -51,6 +51,8 @@ inductive PVal
 inductive Err
   | base (txt : String)
   | ubase (txt : String)     -- an error value of a non-comparable dynamic type (`type fieldErrors []string`) with this text
+  | ctxErr (deadline : Bool) -- the sentinels `context.DeadlineExceeded` (true) / `context.Canceled` (false): what a handler
+                             -- that honours `msg.Context()` returns (maybe wrapped) when its per-call context is done
   | pkgWrap (msg : String) (inner : Err)
   | fmtWrap (msg : String) (inner : Err)
   | recovered (v : PVal)
@@ -60,6 +62,7 @@ inductive Err
 def Err.text : Err → Option String
   | .base t => some t
   | .ubase t => some t
+  | .ctxErr d => some (if d then "context deadline exceeded" else "context canceled")
   | .pkgWrap m e => (Err.text e).map (fun t => m ++ ": " ++ t)
   | .fmtWrap m e => (Err.text e).map (fun t => m ++ ": " ++ t)
   | .recovered _ => none
